@@ -331,6 +331,9 @@ class Program:
     def attr_types(self, clsqual):
         """self.<attr> -> class qual, when every assignment in the class (and
         bases) is a constructor call of one package class."""
+        cache = self.__dict__.setdefault('_attr_types', {})
+        if clsqual in cache:
+            return cache[clsqual]
         types = {}
         bad = set()
         for q in self.mro(clsqual):
@@ -353,7 +356,8 @@ class Program:
                                     bad.add(t.attr)
                                 elif types.setdefault(t.attr, ty) != ty:
                                     bad.add(t.attr)
-        return {k: v for k, v in types.items() if k not in bad}
+        cache[clsqual] = {k: v for k, v in types.items() if k not in bad}
+        return cache[clsqual]
 
     def callee_of(self, finfo, call):
         """Resolve the callee of an ast.Call inside finfo -> FunctionInfo|None
